@@ -169,8 +169,8 @@ PROPS = {
         explanation='quote selection of the printer: info::escape(v) returns q + v + q with q a quote character that does not occur in v, for every v that does not contain both quote characters, so the literal re-reads as v under productions [10]-[12]',
     ),
     'C11': dict(
-        standin_ops=['info.normalize_ws', 'info.equal_qname', 'info.attr_norm'],
-        verus_units=['info_helpers', 'c03_entity'],
+        standin_ops=['info.normalize_ws', 'info.equal_qname', 'info.attr_norm', 'info.attr_defaults'],
+        verus_units=['info_helpers', 'c03_entity', 'c11_defaults'],
         level='proof',
         trusted_base=TRUSTED_VERUS,
         assumptions=[A1, A2 + ' (String::replace(char, " ") as a pointwise map; str::to_string; char::from_u32_unchecked by assume_specification carrying its safety precondition; String::push / push_str / new by their views; split(\' \').filter(non-empty).join(" ") as "the tokens separated by single spaces")', A4, A8,
